@@ -253,6 +253,11 @@ def wf(v):
         out += [z3.Implies(z3.Not(v.isnone), c) for c in wf(v.v)]
     elif isinstance(v, (VSet, VDict)):
         out.append(v.c >= 0)
+        # what len() of a finite set/dict reveals: empty or not, more than one element or not
+        x = z3.Const(fresh_name("cx"), sort_of(v.kty))
+        y = z3.Const(fresh_name("cy"), sort_of(v.kty))
+        out.append((v.c > 0) == z3.Exists([x], z3.Select(v.m, x)))
+        out.append((v.c > 1) == z3.Exists([x, y], z3.And(x != y, z3.Select(v.m, x), z3.Select(v.m, y))))
     elif isinstance(v, VRec):
         for n in v.f:
             out += wf(v.f[n])
@@ -467,6 +472,11 @@ def lex_lt(a, b, strict=True):
         return res
     num = (VInt, VReal, VBool)
     if isinstance(a, num) and isinstance(b, num):
+        ia, ib = getattr(a, "is_inf", False), getattr(b, "is_inf", False)
+        if ib and not ia:
+            return z3.BoolVal(True)   # anything finite < inf
+        if ia and not ib:
+            return z3.BoolVal(False)
         if isinstance(a, VReal) or isinstance(b, VReal):
             x, y = coerce(a, REAL).t, coerce(b, REAL).t
         else:
